@@ -156,7 +156,7 @@ func ValText(s *Schema, v reflect.Value, o TextOpts) string {
 
 		return "(some " + ValText(s.Elem, v.Elem(), o) + ")"
 	case KCustom:
-		b, err := v.Interface().(interface{ Encode() ([]byte, error) }).Encode()
+		b, err := customEncode(v)
 		if err != nil {
 			return "(custom-error)"
 		}
